@@ -43,6 +43,8 @@ EXPLANATION += ' (R9) what Replica::insert / delete_prefix offer to the store do
 EXPLANATION += " (R10, round 9) RecordsBounds::author_key evaluated on concrete ids - incl. ids ending in 0xFF / all-0xFF - and prefixes - incl. empty, ending in 0xFF -, the range decided on sample rows of this author, greater and smaller authors and the next document: exactly (this document, this author, keys starting with the prefix). R5's `removed` clause is decided by R1's evaluated rows."
 EXPLANATION += " (R12, round 10) = the entry_put cells of C18.R2: every admitted entry gets its record and its index row, whether or not it is newer than the author's head."
 EXPLANATION += " (R13, round 12) = C12.R3's single-entry ingress cells: an entry offered to a replica is validated for, pruned in and stored in that very replica; a rejected one touches nothing."
+EXPLANATION += " (R14, round 13) = C03.R1's validate-closure clauses + C03.R6: inside a reconciliation message a rejected entry is skipped by the validate callback and the remaining entries are processed."
+EXPLANATION += " (R15, round 13) an implementation that overrides a default method of ranger::Store is evaluated on the default's table (put: R1's parent sequences, get_range_len: C08.R6); an override without a table fails closed."
 
 
 def _label_put_operand(body, op):
@@ -96,7 +98,7 @@ def bool_table_of_local(body, dest_local, cmps, label):
     return None, None
 
 
-def eval_put(f, parents):
+def eval_put(f, parents, path=None):
     """ranger::Store::put evaluated (K6') with the storage trait's methods answered by an oracle:
     `parents` = for each parent the store yields, cmp(new, parent) in {-1,0,1} or "err".
     Returns (rendered result, log of storage effects, prune predicate table or None)."""
@@ -151,7 +153,7 @@ def eval_put(f, parents):
             return E.Ok(E.UNIT)
         return None
     try:
-        ret, hp, ev = E.run(f, PUT, [E.href("self"), E.Tok("entry")], {"self": E.Tok("store")}, oracle)
+        ret, hp, ev = E.run(f, path or PUT, [E.href("self"), E.Tok("entry")], {"self": E.Tok("store")}, oracle)
         return E.describe(ret, f), st["log"], st["pred"]
     except E.Unsupported as e:
         return "UNSUPPORTED-FORM: %s" % e, st["log"], st["pred"]
@@ -990,6 +992,55 @@ def r13(ctx):
     syncstep.check_insert_paths(ctx, "C02.R13")
     ctx.floor("C02.R13", 12)
 
+def r14(ctx):
+    """"an entry is kept exactly when no entry ... is newer", for every valid entry offered - also the ones that arrive next to an invalid
+    one: in a reconciliation message a rejected entry is skipped and the rest is processed (C03.R1's validate closure is the place
+    that rejects, C03.R6: a failed validation continues the loop; C02-14 moved the validation in front of the loop with `?`)"""
+    from . import C03
+    ctx.share("C02.R14", C03.r1, "C03.R1", keep=lambda k: "validate-closure" in k or "validates-the-received-entry" in k, floor=2)
+    ctx.share("C02.R14", C03.r6, "C03.R6", floor=3)
+
+def r15(ctx):
+    """the admission rule is the one evaluated by R1 for *every* implementation: a store that overrides a default method of
+    ranger::Store (put, get_range_len, ...) replaces the evaluated default for production - its override is evaluated on the same
+    table (put: R1's parent sequences; get_range_len: C08.R6), an override without a table fails closed (C08-13: a `put` of the
+    redb store with a fast path keyed on the author head)"""
+    overrides(ctx, "C02.R15")
+    ctx.floor("C02.R15", 1)
+
+
+def overrides(ctx, rule):
+    f = ctx.facts
+    defaults = sorted(p.split("::")[-1] for p, b in f.bodies.items() if re.match(r"^ranger::Store::\w+$", p) and b.kind in ("fn", "assoc_fn"))
+    if "put" not in defaults or "get_range_len" not in defaults:
+        raise mir.AnchorMissing("default methods of ranger::Store found: %s" % defaults)
+    impls = sorted(p for p in f.bodies if re.match(r"^<.* as ranger::Store<.*>>::\w+$", p) and not p.startswith("<&mut ") and f.bodies[p].kind in ("fn", "assoc_fn"))
+    over = [p for p in impls if p.split("::")[-1] in defaults]
+    if not over:
+        ctx.ok(rule, "ranger::Store", "no-default-method-overridden", "implementations %s override none of the default methods %s: the evaluated defaults are what runs" % (sorted({p.split(" as ")[0] for p in impls}), defaults), None)
+        return
+    for p in over:
+        b = f.body(p)
+        ctx.touch(b)
+        name = p.split("::")[-1]
+        if name == "put":
+            badr = []
+            for parents in ([], [-1], [0], [1], [1, -1], [1, 0], [1, 1], [-1, 1], ["err"], [1, "err"]):
+                got, log, pred = eval_put(f, parents, path=p)
+                if any(x == "err" for x in parents) and all(x == 1 for x in parents[:parents.index("err")]):
+                    want = "Err(storage-error)"
+                elif any(x in (-1, 0) for x in parents if x != "err"):
+                    want = "Ok(NotInserted)"
+                else:
+                    want = "Ok(Inserted(removed))"
+                if got != want:
+                    badr.append((parents, got, "spec " + want))
+            ctx.check(not badr, rule, p, "override-agrees-with-the-table[put]", "the overriding put evaluated on R1's parent sequences: deviating %s" % badr[:4], b.sp)
+        elif name == "get_range_len":
+            ctx.ok(rule, p, "override-agrees-with-the-table[get_range_len]", "evaluated by C08.R6", b.sp)
+        else:
+            ctx.bad(rule, p, "override-without-a-table[%s]" % name, "UNSUPPORTED-FORM: %s overrides a default method of ranger::Store whose evaluated table is bound to the default" % p, b.sp)
+
 def run(ctx):
     ctx.run_rule("C02.R1", r1)
     ctx.run_rule("C02.R2", r2)
@@ -1003,3 +1054,5 @@ def run(ctx):
     ctx.run_rule("C02.R10", r10)
     ctx.run_rule("C02.R12", r12)
     ctx.run_rule("C02.R13", r13)
+    ctx.run_rule("C02.R14", r14)
+    ctx.run_rule("C02.R15", r15)
